@@ -129,6 +129,39 @@ func c18Candidates(r *rand.Rand, m *Model, n int) []Tuple {
 		}
 		out = append(out, t.Norm())
 	}
+	// the kind x condition matrix of every restriction: each subject kind of the restriction's type with each
+	// condition any restriction of the relation names (or none), contexts satisfying the declared types
+	for _, def := range m.Rels {
+		cs := map[string]bool{"": true}
+		for _, x := range def.Restr {
+			cs[x.Cond] = true
+		}
+		seenT := map[string]bool{}
+		for _, x := range def.Restr {
+			if seenT[x.T] {
+				continue
+			}
+			seenT[x.T] = true
+			kinds := []Subj{{x.T, "a", ""}, {x.T, "*", ""}}
+			for _, ur := range m.RelsOf(x.T) {
+				kinds = append(kinds, Subj{x.T, "2", ur})
+			}
+			for _, u := range kinds {
+				for c := range cs {
+					if r.Intn(2) == 0 {
+						continue
+					}
+					t := Tuple{O: Obj{def.T, "m" + fmt.Sprint(len(out))}, R: def.R, U: u, C: c, Cctx: Ctx{}}
+					for i := range m.Conds {
+						if m.Conds[i].Name == c {
+							t.Cctx = CtxFor(r, &m.Conds[i], "T")
+						}
+					}
+					out = append(out, t.Norm())
+				}
+			}
+		}
+	}
 	// boundary of the context size limit on otherwise acceptable tuples
 	for _, def := range m.Rels {
 		for _, x := range def.Restr {
